@@ -271,16 +271,24 @@ func (x *Exec) opaqueCall(s *State, f *Frame, cc *CallCtx, callee Value, mayPani
 	if res != nil {
 		ev.Rets = []Value{res}
 		if x.NonNilResult != nil && x.NonNilResult(cc.Name) {
-			switch r := res.(type) {
-			case *PtrVal:
-				if r.Cell == nil {
-					s.Assume(Neq(r.Ref, IntLit(0)))
-				}
-			case *Scalar:
-				if r.T.Sort == SInt {
-					s.Assume(Neq(r.T, IntLit(0)))
+			var nonNil func(v Value)
+			nonNil = func(v Value) {
+				switch r := v.(type) {
+				case *PtrVal:
+					if r.Cell == nil {
+						s.Assume(Neq(r.Ref, IntLit(0)))
+					}
+				case *Scalar:
+					if r.T.Sort == SInt {
+						s.Assume(Neq(r.T, IntLit(0)))
+					}
+				case TupleVal:
+					for _, e := range r {
+						nonNil(e)
+					}
 				}
 			}
+			nonNil(res)
 		}
 	}
 	if !mayPanic {
@@ -425,6 +433,13 @@ func (x *Exec) callContract(s *State, f *Frame, cc *CallCtx, target *ssa.Functio
 	oldHeap := copyMap(s.Heap)
 	for _, m := range spec.Modifies {
 		x.havocPrefix(s, m)
+	}
+	// sound default frame: whatever the callee's body may store to (the declared
+	// modifies list is not trusted to be complete)
+	if fv != nil {
+		x.havocCalleeMods(s, f, cc, fv)
+	} else {
+		x.havocCalleeMods(s, f, cc, x.staticFunc(target))
 	}
 	var res Value
 	rt := target.Signature.Results()
